@@ -153,6 +153,9 @@ def oracle(ctx, seeds=None):
         nit = int(rng.integers(2, 12))
         def run():
             s = getattr(impl.integ, name)(msh, disc)
+            if i % 3 == 1:
+                # the same solver object first served a short run with directives={'dtlocal': True}: the next, plain call uses ONE global step
+                s.solve(f, cfl, stop={'maxit': 1}, directives={'dtlocal': True})
             return s.solve(f, cfl, stop={'maxit': nit})[-1]
         ok, out = impl.guarded(run)
         res.case(('solve', name, cfg['model']))
@@ -173,7 +176,7 @@ def oracle(ctx, seeds=None):
                 res.fail('solve/%s:drift' % name, "eq %d integral %r -> %r after %d steps (cfl %r, %s)" % (k, i0[k], i1[k], nit, cfl, cfg['model']),
                          dict(cfg=cfg, integrator=name, cfl=cfl, nit=nit))
     # ---- implicit family on NON-UNIFORM periodic meshes, linear and nonlinear scalar laws (every quick run sees each integrator)
-    for name in IMPL:
+    for name in IMPL + ['explicit', 'rk3ssp', 'lsrk25bb']:
         for j in range(ctx.n(3, 20)):
             model = ['conv', 'burgers', 'conv'][j % 3]
             cfg = cfg1d.rand_config(rng, units=False, per=True, n=int(rng.integers(3, 9)), smooth=True, model=model,
@@ -184,15 +187,21 @@ def oracle(ctx, seeds=None):
             if not ok:
                 continue
             mod, msh, disc, f = b
-            cfl = float(rng.choice([0.5, 2.0, 10.0])); nit = int(rng.integers(2, 8))
-            ok, out = impl.guarded(lambda: getattr(impl.integ, name)(msh, disc).solve(f, cfl, stop={'maxit': nit})[-1])
+            cfl = float(rng.choice([0.5, 2.0, 10.0])) if name in IMPL else 0.3
+            nit = int(rng.integers(2, 8))
+            def run_nu():
+                s_ = getattr(impl.integ, name)(msh, disc)
+                if j % 2:
+                    s_.solve(f, cfl, stop={'maxit': 1}, directives={'dtlocal': True})      # an earlier call with local time steps does not stick
+                return s_.solve(f, cfl, stop={'maxit': nit})[-1]
+            ok, out = impl.guarded(run_nu)
             res.case(('solve-nonuniform', name, model, cfg['mesh']['kind']))
             if not ok or out.isnan():
                 res.count('skipped-nan'); continue
             vol = msh.vol()
             i0 = float(np.sum(vol * f.data[0])); i1 = float(np.sum(vol * out.data[0]))
             sc = float(np.sum(vol * np.abs(f.data[0]))) + float(np.sum(vol * np.abs(out.data[0] - f.data[0]))) + 1e-300
-            if abs(i1 - i0) > 1e-7 * max(1.0, cfl) * float(np.max(vol) / np.min(vol)) * sc:
+            if abs(i1 - i0) > (1e-7 * max(1.0, cfl) * float(np.max(vol) / np.min(vol)) if name in IMPL else 1e-11) * sc:
                 res.fail('solve/%s:drift' % name, "integral %r -> %r after %d steps on a %s periodic mesh (cfl %r, %s, %r)" % (i0, i1, nit, cfg['mesh']['kind'], cfl, model, cfg['scheme']),
                          dict(cfg=cfg, integrator=name, cfl=cfl, nit=nit))
     return res
